@@ -49,9 +49,10 @@ SECP = ("TraceSecp.tla", "TraceSecp.cfg")
 FIELD = ("TraceField.tla", "TraceField.cfg")
 PASSES = {
     "C09": [("C09", ("main",), SECP, 1.0, False, None), ("C09w", ("main", "field"), FIELD, 1.0, True, None)],
-    "C11": [("C11", ("main", "field"), FIELD, 1.0, False, None),
+    "C11": [("C11", ("main", "map"), FIELD, 1.0, False, None),
             # the field primitives the map is composed of, on boundary / structured operands: any disagreement counts
-            ("C11f", ("main", "field"), FIELD, 1.0, False, {"result", "frame", "noncanonical-stored-value", "noncanonical-bytes"})],
+            # (optional: it needs the method names of internal/field; a renaming refactor only loses this pass)
+            ("C11f", ("main", "field"), FIELD, 1.0, True, {"result", "frame", "noncanonical-stored-value", "noncanonical-bytes"})],
     "C12": [("C12", ("main", "field"), FIELD, 1.0, False, None)],
     "C19": [("C19", ("main", "sched"), ("TraceSched.tla", "TraceSched.cfg"), 1.0, False, None)],
     "C15": [("C15", ("main",), ("TraceMem.tla", "TraceMem.cfg"), 1.0, False, None),
